@@ -198,6 +198,23 @@ func c20Rename(renames, per int) (bool, string) {
 }
 
 func c20Run(r *runCtx, id string, f []string) {
+	if f[0] == "conc" {
+		// three programs, every VM slowed a little, the middle one reloaded over and over while
+		// lines flow: each line is counted by exactly one version of it (its counter is carried
+		// over from version to version)
+		n, _ := strconv.Atoi(f[1])
+		k, _ := strconv.Atoi(f[2])
+		ok, note := c06Conc(n, k, true)
+		r.stat("conc")
+		r.obs(id, "-")
+		if !ok {
+			r.replay(id, f...)
+			r.fail(id, "line-not-once-per-program", "%s", note)
+		} else {
+			r.ok(id)
+		}
+		return
+	}
 	if f[0] == "rename" {
 		k, _ := strconv.Atoi(f[1])
 		per, _ := strconv.Atoi(f[2])
@@ -453,6 +470,8 @@ func c20Run(r *runCtx, id string, f []string) {
 func init() {
 	props["C20"] = &propImpl{
 		gen: func(g *genCtx) {
+			g.emit("conc", "400", "60")
+			g.emit("conc", "1500", "250")
 			g.emit("rename", "1", "2")
 			g.emit("rename", "3", "1")
 			g.emit("rename", "4", "3")
